@@ -55,3 +55,32 @@ Definition unspaced (ts : list tterm) : list tterm :=
 Definition wrap_pre_txt : txt := tx "(gamma - 1.0) * ( ".
 Definition wrap_post_txt : txt := tx " ) / kerg / npar".
 Definition wrapped_txt (ts : list tterm) : txt := (wrap_pre_txt ++ rhs_txt ts ++ wrap_post_txt)%list.
+
+(** ** rows holding ODE-modifier terms:  f" + ({fact}) * {'*'.join(deps)}"  (right-hand side) and
+    " + " + '*'.join([f"({fact})", *deps])  (Jacobian); the factor is arbitrary user text *)
+Inductive gterm := GR (t : tterm) | GM (spaced : bool) (fact : string) (vs : list nat).
+Definition gterm_txt (g : gterm) : txt :=
+  match g with
+  | GR t => term_txt t
+  | GM sp f vs => (tx " + (" ++ tx f ++ [C ")"%char] ++ vars_txt sp vs)%list
+  end.
+Definition grhs_txt (gs : list gterm) : txt := (map C zero_lit ++ flat_map gterm_txt gs)%list.
+
+Definition gterm_of (spaced : bool) (t : term) : option gterm :=
+  match t_coef t with
+  | CF f => if t_neg t then None else Some (GM spaced f (t_vars t))
+  | _ => match tterm_of t with Some x => Some (GR x) | None => None end
+  end.
+Fixpoint gterms_of (spaced : bool) (e : eqn) : option (list gterm) :=
+  match e with
+  | [] => Some []
+  | t :: r => match gterm_of spaced t, gterms_of spaced r with Some x, Some xs => Some (x :: xs) | _, _ => None end
+  end.
+
+(* every modifier factor of the row parses on its own as a C expression (decidable premise of the theorems) *)
+Definition facts_parse (gs : list gterm) : bool :=
+  forallb (fun g => match g with GR _ => true | GM _ f _ => match parse (tx f) with Some _ => true | None => false end end) gs.
+
+(* the right-hand side writes " * " after the factor even when the modifier has no dependency (not C): excluded *)
+Definition gdeps_ok (gs : list gterm) : bool :=
+  forallb (fun g => match g with GM true _ [] => false | _ => true end) gs.
